@@ -302,6 +302,10 @@ def run_once(prog, how, seed, settings, clock, outfile, in_thread=False, late=Fa
         if prog.get("max_stack"):
             opts.MAX_TASK_STACK_SIZE = prog["max_stack"]
         rt = harness.HarnessRT(prog, prio=("content", PRIO[1]) if prog.get("content_priority") else PRIO, seed=seed)
+        if prog.get("percent_args"):
+            # every task's first argument prints with per-cent signs in it (a LIKE pattern, a format string): names
+            # and dumps are built from the arguments' repr()
+            rt.label = "100%s of %(k)d %"
         if prog.get("evil"):
             # the scheduler's own batch.flush() call raises (switching the active batch fails / flush() overridden /
             # a before-subscriber already flushed the batch): the after-flush event still has to fire
@@ -368,6 +372,9 @@ def run_unit(unit, progress):
         if i % 4 == 3:
             prog["content_priority"] = True
             inc("programs_whose_batch_priority_depends_on_the_items")
+        if i % 5 == 1:
+            prog["percent_args"] = True
+            inc("programs_whose_task_arguments_print_with_per_cent_signs")
         if i % 12 == 2:
             prog["evil"] = [rnd.choice(["switch", "override", "preflush"]), rnd.randrange(2)]
             inc("programs_in_which_the_schedulers_flush_call_raises")
